@@ -2427,6 +2427,11 @@ impl Interpreter {
         guard: &Guard<JsObject>,
         elements: Vec<JsValue>,
     ) -> Gc<JsObject> {
+        // The allocation below may run a collection: until the array holds them,
+        // the elements may be reachable from nothing but this vector
+        for elem in &elements {
+            elem.guard_by(guard);
+        }
         let arr = guard.alloc();
         {
             let mut arr_ref = arr.borrow_mut();
@@ -4416,7 +4421,9 @@ impl Interpreter {
             return Err(JsError::type_error("Symbol.iterator must return an object"));
         };
 
-        // Iterate: call next() until done is true
+        // Iterate: call next() until done is true. The values are held by this
+        // function only while further next() calls allocate.
+        let values_guard = self.heap.create_guard();
         let mut values = Vec::new();
         let next_key = PropertyKey::String(self.intern("next"));
 
@@ -4468,6 +4475,7 @@ impl Interpreter {
                     .unwrap_or(JsValue::Undefined)
             };
 
+            iter_value.guard_by(&values_guard);
             values.push(iter_value);
         }
 
